@@ -26,14 +26,70 @@ def tag_of(data):
 
 VARIANTS = ['upgrade_ok', 'upgrade_fail_frame', 'upgrade_fail_close', 'polling_only', 'ws_only',
             'two_sessions', 'close_during', 'upgrade_no_pending_poll', 'backlog_polling', 'backlog_ws',
-            'backlog_upgrade']
+            'backlog_upgrade', 'overlapping_opens']
+
+
+class _SlowConnect:
+    """Application whose connect handler takes 1/8 s of virtual time."""
+    def connect(self, sid, environ):
+        return [('sleep', 0.125)]
+
+    def message(self, sid, data):
+        return []
+
+    def disconnect(self, sid, reason):
+        return []
 
 
 class Delivery(core.Scenario):
     horizon = 0.0
 
+    def build_overlapping(self):
+        """Two clients open sessions at the same time (the second request arrives while the first connect handler
+        is still running); afterwards each client polls with the sid it was told."""
+        p = self.params
+        w = self.world = peer.make_world(p['impl'], server_kwargs=dict(ping_interval=50, ping_timeout=50, async_handlers=False),
+                                         behaviour=_SlowConnect())
+        self.horizon = 0.5
+        self.opens = []
+        self.sends, self.polls, self.ws = [], {}, {}
+        self.fail_step = None
+        self.closed_by_client = {}
+        self.A = self.B = None
+
+        def do_open(sc):
+            sc.opens.append(peer.open_polling(sc.world, run=False))
+        self.scripts = [[core.Action('open-A', do_open)], [core.Action('open-B', do_open)]]
+
+    def finish_overlapping(self):
+        w = self.world
+        told = [peer.sid_of(r) for r in self.opens]
+        real = [e[1] for e in w.events if e[0] == 'connect']
+        self._obs = {'told': told, 'real': real}
+        if None in told or len(told) != 2:
+            self.flag('open_failed', 'opens answered %r' % [(r.done, r.status) for r in self.opens], trigger='overlapping_opens')
+            return
+        if told[0] == told[1] or sorted(told) != sorted(real):
+            self.flag('cross_delivery', 'two clients opening at the same time were told sids %r; the application saw %r' % (told, real),
+                      trigger='overlapping_opens')
+        for s_ in real:
+            w.call('send', s_, 'for-' + s_[-4:])
+        w.run()
+        for i, t in enumerate(told):
+            g = peer.poll(w, t)
+            w.run_until(w.now + 0.125)
+            got = [d for ty, d in peer.decode_body(g.text())] if g.done and g.status == 200 else None
+            want = ['for-' + t[-4:]]
+            got_msgs = [d for d in (got or []) if isinstance(d, str) and d.startswith('for-')]
+            self._obs['client%d' % i] = got_msgs
+            if got_msgs != want:
+                self.flag('cross_delivery' if got_msgs else 'message_lost',
+                          'client %d (told sid ..%s) read %r, want %r' % (i, t[-4:], got_msgs, want), trigger='overlapping_opens')
+
     def build(self):
         p = self.params
+        if p['variant'] == 'overlapping_opens':
+            return self.build_overlapping()
         impl, variant, k = p['impl'], p['variant'], p['k']
         w = self.world = peer.make_world(impl, server_kwargs=dict(ping_interval=50, ping_timeout=50, async_handlers=False))
         self.sends = []      # (tag, sid, call)
@@ -176,6 +232,8 @@ class Delivery(core.Scenario):
     def finish(self):
         w = self.world
         p = self.params
+        if p['variant'] == 'overlapping_opens':
+            return self.finish_overlapping()
         for sid in [self.A] + ([self.B] if self.B else []):
             self.drain(sid)
         variant = p['variant']
@@ -233,6 +291,8 @@ class Delivery(core.Scenario):
                 self.flag('exception_escaped', 'poll raised %s at %s' % (r.exc['type'], r.exc['site']), trigger=variant)
 
     def observation(self):
+        if self.params['variant'] == 'overlapping_opens':
+            return dict(getattr(self, '_obs', {}), scenario=[self.params['impl'], 'overlapping_opens'])
         out = {}
         for sid in [self.A] + ([self.B] if self.B else []):
             out[sid[-4:]] = [(o[2], o[3]) for o in self.observed(sid)]
